@@ -324,6 +324,25 @@ def run(prog, chk):
            "%d sink(s); read-ahead dropped (%d) and _realpos pulled back to _pos (%d) before data is accepted%s" % (
                len(sinks), len(drop), len(resync), "" if okw else " - not on every path: after a buffered read the data lands past the read-ahead"))
 
+    # ---- R4d: a read that hands bytes out advances the logical position on every path --------------------------------
+    # every return of read() that can carry data (anything but a literal empty value) is dominated by an advance of
+    # _pos; a path that returns read-ahead bytes without one leaves tell() / relative seeks short by those bytes
+    rd_f = bf_method(prog, "read")
+    frd = Flow(prog, rd_f, implicit=False)
+    rrets = frd.nodes(lambda n: n.kind == "return" and isinstance(n.ast, ast.Return) and n.ast.value is not None
+                      and not (isinstance(n.ast.value, ast.Constant) and not n.ast.value.value)
+                      and not (M.is_call(n.ast.value, name="bytes") and not n.ast.value.args))
+    chk.floor("R4", "data-carrying returns in BufferedFile.read", len(rrets), 3)
+    adv = frd.nodes(lambda n: n.kind == "stmt" and (
+        (isinstance(n.ast, ast.AugAssign) and isinstance(n.ast.op, ast.Add) and unparse(n.ast.target) == "self._pos") or
+        (isinstance(n.ast, ast.Assign) and any(unparse(t_) == "self._pos" for t_ in n.ast.targets))))
+    adv_ids = set(n.id for n in adv)
+    badr = [r_ for r_ in rrets if not frd.cfg.dominated([r_.id], guard_nodes=adv_ids, avoid_edge=frd.avoid)]
+    chk.ob("R4.read-advances-logical-position", "BufferedFile.read", not badr, rd_f.loc,
+           "%d data-carrying return(s), %d advance(s) of _pos%s" % (
+               len(rrets), len(adv), "" if not badr else
+               " - `%s` is reachable without advancing _pos: bytes taken from the read-ahead are handed out but tell() does not count them" % unparse(badr[0].ast)))
+
     # ---- R6 truncate ------------------------------------------------------------------------------------------------
     tr = prog.method("SFTPFile", "truncate")
     w = [(unparse(s.targets[0]), unparse(s.value)) for s in walk_no_defs(tr.node) if isinstance(s, ast.Assign) and unparse(s.targets[0]).startswith("attr.")]
